@@ -643,7 +643,8 @@ def r2_postprocessor_shape(w):
         r.bad(cons2, '%s|acc-use|%s' % (name, p), 'accumulator is modified by `%s` outside the loop' % p, b.loc(t['span']))
     # (d) empty input gives "\n": by the guarded constant return, or by that fix-up
     const_ret = any(kind == 'call' and _guarded_by_is_empty(b, pv, bi) for (kind, bi, si, origs) in ok_payload_origins(b, pv)
-                    for o in origs if strip_casts(o)[0] == 'call' and pv.origins_operand(pv.call_term(strip_casts(o))['args'][0]) == {('const', ('str', '\n'), ())})
+                    for o in origs if strip_casts(o)[0] == 'call' and pv.call_term(strip_casts(o))['args']
+                    and pv.origins_operand(pv.call_term(strip_casts(o))['args'][0]) == {('const', ('str', '\n'), ())})
     cons = {'fn': name, 'empty_input': 'constant return' if const_ret else ('LF appended when the result is empty' if fixups else 'none')}
     if const_ret or fixups:
         r.ok(cons, 'the empty text is answered with a single line feed')
